@@ -286,6 +286,29 @@ example : OutboundSendGen.sendKindOf (flagsOf (fun _ => 5) (sendResults [(1, .mi
     OutboundSendGen.handleRemoves .partialRetry PathIn.mip.sendRes = false ∧
     OutboundSendGen.handleRemoves .partialRetry PathIn.err.sendRes = true := by decide
 
+/-- `remove_outbound_if_all_failed` (send_probe, test_send_payment_internal) drops the freshly added entry wholesale —
+    no event, the id is free again — only for failure kinds that leave NO HTLC in flight: whatever the result vector,
+    if the entry is dropped then no path was accepted (a lone `MonitorUpdateInProgress` is a PartialFailure: kept). -/
+theorem entry_dropped_on_send_failure_only_if_nothing_in_flight (amt : Amt) (paths : List (PartId × PathIn))
+    (hnb : ∀ x ∈ paths, x.2 ≠ .bad)
+    (hd : OutboundSendGen.probeDropsEntry (OutboundSendGen.sendKindOf (flagsOf amt (sendResults paths))) = true) :
+    ∀ x ∈ paths, x.2.inFlight = false := by
+  obtain ⟨_, c2⟩ := classify_spec (amt := amt) paths hnb
+  have hr : ∀ f : OutboundSendGen.Flags, OutboundSendGen.sendKindOf f = .sentAll ∨ OutboundSendGen.sendKindOf f = .allFailedResendSafe ∨
+      OutboundSendGen.sendKindOf f = .partialRetry ∨ OutboundSendGen.sendKindOf f = .partialNoRetry := by
+    intro f; unfold OutboundSendGen.sendKindOf; split <;> (try split) <;> simp
+  intro x hx
+  rcases hr (flagsOf amt (sendResults paths)) with hk | hk | hk | hk
+  · rw [hk] at hd; simp [OutboundSendGen.probeDropsEntry] at hd
+  · have := c2 (by rw [hk]; simp) x hx
+    rw [hk] at this
+    simpa [OutboundSendGen.handleRemoves] using this.symm
+  · rw [hk] at hd; simp [OutboundSendGen.probeDropsEntry] at hd
+  · rw [hk] at hd; simp [OutboundSendGen.probeDropsEntry] at hd
+
+example : OutboundSendGen.probeDropsEntry (OutboundSendGen.sendKindOf (flagsOf (fun _ => 5) (sendResults [(1, .mip)]))) = false ∧
+    OutboundSendGen.probeDropsEntry (OutboundSendGen.sendKindOf (flagsOf (fun _ => 5) (sendResults [(1, .err)]))) = true := by decide
+
 /-- The set of in-flight parts tracked by the payment equals exactly the parts whose HTLC is actually in flight —
     over ALL op lists without restart (any sends / retries with any per-path result vectors, resolutions in any
     order, duplicates, abandons, sweeps, ticks, activity on other ids), from any state that tracks `fl` (`init`: `[]`). -/
@@ -327,6 +350,18 @@ theorem failed_only_when_nothing_in_flight (id : PayId) (s : State) (ops : List 
   obtain ⟨h1, h2⟩ := failed_global_step id (run s ops).1 op _ (wf_run ops s hwf) hop ht hf
   rw [flight_append, run_append]
   exact ⟨h2, h1⟩
+
+/-- A `PaymentPathFailed` — from a resolution or from the initial-send handling of a send / retry call — names a part
+    whose HTLC is not in flight afterwards (never a path that is paused behind a monitor update). -/
+theorem path_failed_names_no_in_flight_part (id : PayId) (s : State) (ops : List Op) (op : Op) (fl : List PartId)
+    (hwf : WF s) (hnr : NoRestart (ops ++ [op])) (h0 : Tracks s.amt (get s.cur id) fl) (p : PartId)
+    (hp : Ev.pathFailed id p ∈ (step (run s ops).1 op).2.evs) : p ∉ flight id s fl (ops ++ [op]) := by
+  have hnr1 : NoRestart ops := fun o ho => hnr o (List.mem_append_left _ ho)
+  have hop := not_restart op (hnr op (by simp))
+  have ht := tracks_run id ops s fl hnr1 h0
+  rw [← run_amt ops s] at ht
+  rw [flight_append]
+  exact pathFailed_global_step id (run s ops).1 op _ (wf_run ops s hwf) hop ht p hp
 
 /-- An id that is no longer listed has no HTLC in flight (so re-using the id is safe). -/
 theorem dropped_only_when_nothing_in_flight (id : PayId) (s : State) (ops : List Op) (fl : List PartId)
